@@ -4,6 +4,7 @@ package main
 
 import (
 	"fmt"
+	"os"
 	"go/types"
 	"strings"
 )
@@ -194,6 +195,9 @@ func evalOb(c *Ctx, e *e1, ob Ob) {
 		if pat != nil {
 			st := s.term
 			if !unify(pat, st, b) {
+				if os.Getenv("E1DEBUGOB") == ob.ID {
+					fmt.Fprintf(os.Stderr, "  %s: no match %s (chain %q) base=%v\n", ob.ID, st, s.chain, base)
+				}
 				continue
 			}
 		}
@@ -266,6 +270,13 @@ func evalOb(c *Ctx, e *e1, ob Ob) {
 	min := ob.Min
 	if min == 0 && !ob.Opt {
 		min = 1
+	}
+	if kind == "ret" && len(clauses) > 0 && ob.Pat == "" {
+		// every return of that status is held to the clauses: how many return statements there are is not a rule
+		if min > 1 {
+			min = 1
+		}
+		ob.Max = 0
 	}
 	if ob.Forbid {
 		c.R.Obl(Obligation{Rule: ob.ID, Func: fi.Name, Construct: "no " + ob.Kind + " " + ob.Pat, Pos: c.P.Position(fi.Pos()), Discharged: matched == 0, Nontrivial: true, Ctl: fi.Ctl})
